@@ -65,6 +65,10 @@ func (p *IdentityProvider) attributeQueryHandleFunc(w http.ResponseWriter, r *ht
 	// get persisted service provider from issuer out of the request
 	checkerInstance.WithLogicStep(
 		func() error {
+			if attrQuery.Issuer == nil {
+				err = fmt.Errorf("issuer is missing in request")
+				return err
+			}
 			sp, err = p.GetServiceProvider(r.Context(), attrQuery.Issuer.Text)
 			if err != nil {
 				return err
@@ -118,6 +122,10 @@ func (p *IdentityProvider) attributeQueryHandleFunc(w http.ResponseWriter, r *ht
 	attrs := &Attributes{}
 	checkerInstance.WithLogicStep(
 		func() error {
+			if attrQuery.Subject.NameID == nil {
+				err = fmt.Errorf("subject is missing in request")
+				return err
+			}
 			if err := p.storage.SetUserinfoWithLoginName(r.Context(), attrs, attrQuery.Subject.NameID.Text, []int{}); err != nil {
 				return err
 			}
